@@ -203,6 +203,8 @@ type Exec struct {
 	ifaceFns  map[string]types.Type
 	pure      map[*ssa.Function]bool
 	nonneg    map[string]bool // pointer terms known to be >= 0 (not allocated by this activation)
+	topFn     *ssa.Function
+	writable  map[string][]string // heap -> addresses of pre-existing objects the top function may write (writes clauses)
 }
 
 func (ex *Exec) sym(prefix string) string {
@@ -343,6 +345,19 @@ func (ex *Exec) readObj(st *State, name, ptr string) string {
 	}
 	if isNegLit(ptr) {
 		return "(select " + h + " " + ptr + ")"
+	}
+	if ws := ex.writable[name]; len(ws) > 0 {
+		var alts []string
+		if !ex.nonneg[ptr] {
+			alts = append(alts, "(< "+ptr+" 0)")
+		}
+		for _, w := range ws {
+			if w == ptr {
+				return "(select " + h + " " + ptr + ")"
+			}
+			alts = append(alts, "(= "+ptr+" "+w+")")
+		}
+		return "(ite " + or(alts...) + " (select " + h + " " + ptr + ") (select " + ex.frozen(name) + " " + ptr + "))"
 	}
 	if ex.nonneg[ptr] {
 		return "(select " + ex.frozen(name) + " " + ptr + ")"
